@@ -174,6 +174,9 @@ func vGhostSettle()                  { time.Sleep(20 * time.Millisecond) }
 func vGhostPoolMode(mode int)        {}
 func vGhostExplore(preempt int)      {}
 func vGhostExploreOff()              {}
+
+// vGhostTimeSlip(ns): in exploration mode a timer that is due within ns may fire at any scheduling point.
+func vGhostTimeSlip(ns int64) {}
 // vGhostFmtDigits(true): the engine forks on the digit count of symbolic integers rendered by fmt (exact text lengths).
 func vGhostFmtDigits(on bool) {}
 
